@@ -94,7 +94,7 @@ def adj_tags(t, out=None):
             out.add(f"adj:{p_}>{c_}:{side}")
             if t["t"] == "bin" and c["t"] == "bin" and t["op"] in CMP and c["op"] in CMP:
                 out.add("cmp-in-cmp")
-            if t["t"] == "bin" and c["t"] == "bin" and c["op"] == "%" and side == "r" and t["op"] in ("*", "/", "//", "%"):
+            if t["t"] == "bin" and c["t"] == "bin" and c["op"] == "%" and side == "r" and t["op"] == "*":
                 out.add("mod-right-of-mul")
             if c["t"] == "bin" and c["op"] == "//" and ((t["t"] == "bin" and t["op"] in ("*", "/", "//", "%")) or t["t"] == "un"):
                 out.add("divi-operand")
